@@ -55,4 +55,4 @@ func VerifC20NewPredictor(minInterval, initialInterval, maxInterval time.Duratio
 }
 
 func (v *VerifC20Predictor) Update(progress uint64) time.Duration { return v.p.update(progress) }
-func (v *VerifC20Predictor) Interval() time.Duration             { return v.p.interval }
+func (v *VerifC20Predictor) Interval() time.Duration              { return v.p.interval }
